@@ -439,7 +439,7 @@ func runSst(c *corr.Ctx) error {
 		}
 		c.Emit(cs)
 	}
-	n := c.Scale(110, 4700)
+	n := c.Scale(110, 2500)
 	for i := 0; i < n; i++ {
 		maxEntries, maxTargets := 24, 30
 		if i%40 == 39 {
